@@ -8,9 +8,11 @@ execute().  Anything outside the supported subset raises Unsupported (=> inconcl
 import re, sqlite3
 from collections.abc import Mapping
 import z3
-from .engine import (E, SBool, SStr, SNum, Z, W, Unsupported, Inconclusive, tobool)
+from .engine import (E, SBool, SStr, SNum, SOpt, Z, W, Unsupported, Inconclusive, tobool, kind_of)
 
-STR, INT, REAL = z3.StringSort(), z3.IntSort(), z3.RealSort()
+# column kinds: 's' text (order-embedded into the reals, see engine), 'i' integer/boolean, 'r' real
+STR, INT, REAL = "s", "i", "r"
+KSORT = {"s": z3.RealSort(), "i": z3.IntSort(), "r": z3.RealSort()}
 
 # ---------------------------------------------------------------------------------------------
 # tokenizer / parser for the SQL subset
@@ -394,27 +396,37 @@ def column_sort(table, col, catalog):
     raise Unsupported("column type %r" % t)
 
 
-def coerce(term, sort, what=""):
-    if term.sort() == sort:
+def coerce(val, sort, what=""):
+    """(term, kind) -> term of the column's kind (type affinity beyond int->real is outside the claim)"""
+    term, kind = val
+    if kind == sort:
         return term
-    if sort == REAL and term.sort() == INT:
+    if sort == REAL and kind == INT:
         return z3.ToReal(term)
-    if sort == INT and term.sort() == REAL:
+    if sort == INT and kind == REAL:
         s = z3.simplify(term)
         if z3.is_rational_value(s) and s.denominator_as_long() == 1:
             return z3.IntVal(s.numerator_as_long())
         if z3.is_app(s) and s.decl().kind() == z3.Z3_OP_TO_REAL:
             return s.arg(0)
         return z3.ToInt(term)
-    raise Unsupported("type affinity: storing %s into %s column %s" % (term.sort(), sort, what))
+    raise Unsupported("type affinity: storing a %s value into %s column %s" % (kind, sort, what))
+
+
+def zk(x):
+    """python value / proxy -> (term, kind)"""
+    if isinstance(x, tuple) and len(x) == 2 and x[1] in ("s", "i", "r"):
+        return x
+    return (Z(x), kind_of(x))
 
 
 class RowView(Mapping):
     """what dict_factory would give: column -> value; NULLs decided lazily on access"""
 
-    def __init__(self, table, vals, nulls, names=None):
+    def __init__(self, table, vals, nulls, names=None, kinds=None):
         self._t, self._v, self._n = table, vals, nulls
         self._names = names or list(vals.keys())
+        self._k = kinds or (table.sort if table is not None else {})
         self._cache = {}
 
     def __getitem__(self, c):
@@ -425,7 +437,7 @@ class RowView(Mapping):
             if nb is not None and E().decide(nb):
                 self._cache[c] = None
             else:
-                self._cache[c] = W(self._v[c])
+                self._cache[c] = W(self._v[c], self._k.get(c))
         return self._cache[c]
 
     def __iter__(self):
@@ -436,6 +448,10 @@ class RowView(Mapping):
 
     def __bool__(self):
         return True
+
+    def fresh(self):
+        """same row, no cached NULL decisions (for merged re-executions)"""
+        return RowView(self._t, self._v, self._n, self._names, self._k)
 
     def term(self, c):
         return self._v[c]
@@ -555,7 +571,10 @@ class RelStore:
             return None
         if isinstance(x, (list, tuple, dict, bytes)):
             raise sqlite3.InterfaceError("Error binding parameter - probably unsupported type.")
-        return Z(x)
+        if isinstance(x, SOpt):
+            t, k = zk(x.value)
+            return (t, k, x.null)
+        return zk(x)
 
     def _match(self, tb, cond, params):
         """per-slot match term (present ∧ WHERE is TRUE)"""
@@ -593,12 +612,13 @@ class RelStore:
             pv = self._val(v, params)
             if pv is None:
                 return z3.BoolVal(False), z3.BoolVal(False)
+            if len(pv) == 3:
+                raise Unsupported("merged optional value in a WHERE clause")
             a = r.v[col]
-            b = coerce_cmp(pv, a.sort(), "%s.%s" % (tb.name, col))
+            b = coerce_cmp(pv, tb.sort[col])
             if b is None:        # comparing values of different storage classes: never equal
-                eq = z3.BoolVal(False)
                 if op == "=":
-                    rel = eq
+                    rel = z3.BoolVal(False)
                 elif op == "!=":
                     rel = z3.BoolVal(True)
                 else:
@@ -606,8 +626,8 @@ class RelStore:
             else:
                 a2, b2 = a, b
                 if a2.sort() != b2.sort():
-                    a2 = z3.ToReal(a2) if a2.sort() == INT else a2
-                    b2 = z3.ToReal(b2) if b2.sort() == INT else b2
+                    a2 = z3.ToReal(a2) if z3.is_int(a2) else a2
+                    b2 = z3.ToReal(b2) if z3.is_int(b2) else b2
                 rel = {"=": a2 == b2, "!=": a2 != b2, "<": a2 < b2, "<=": a2 <= b2, ">": a2 > b2,
                        ">=": a2 >= b2}[op]
             nn = z3.Not(r.n[col])
@@ -620,9 +640,13 @@ class RelStore:
                 pv = self._val(v, params)
                 if pv is None:
                     continue
-                b = coerce_cmp(pv, r.v[col].sort(), col)
+                b = coerce_cmp(pv, tb.sort[col])
                 if b is not None:
-                    alts.append(r.v[col] == b)
+                    a2, b2 = r.v[col], b
+                    if a2.sort() != b2.sort():
+                        a2 = z3.ToReal(a2) if z3.is_int(a2) else a2
+                        b2 = z3.ToReal(b2) if z3.is_int(b2) else b2
+                    alts.append(a2 == b2)
             hit = z3.Or(*alts) if alts else z3.BoolVal(False)
             nn = z3.Not(r.n[col])
             t, f = z3.And(nn, hit), z3.And(nn, z3.Not(hit))
@@ -642,10 +666,11 @@ class RelStore:
             alts = []
             for sr, m in zip(stb.rows, sm):
                 a, b = r.v[col], sr.v[scol]
-                if a.sort() != b.sort():
-                    if {a.sort(), b.sort()} == {INT, REAL}:
-                        a = z3.ToReal(a) if a.sort() == INT else a
-                        b = z3.ToReal(b) if b.sort() == INT else b
+                ka, kb = tb.sort[col], stb.sort[scol]
+                if ka != kb:
+                    if {ka, kb} == {INT, REAL}:
+                        a = z3.ToReal(a) if ka == INT else a
+                        b = z3.ToReal(b) if kb == INT else b
                     else:
                         continue
                 alts.append(z3.And(m, z3.Not(sr.n[scol]), a == b))
@@ -802,14 +827,15 @@ class RelStore:
             if val is not None:
                 self.foreign_keys = str(val).upper() in ("ON", "1", "TRUE", "YES")
             return Cursor(self, [RowView(None, {"foreign_keys": z3.IntVal(int(self.foreign_keys))},
-                                         {"foreign_keys": z3.BoolVal(False)})] if val is None else [])
+                                         {"foreign_keys": z3.BoolVal(False)}, kinds={"foreign_keys": INT})]
+                          if val is None else [])
         if name == "foreign_key_check":
             def lazy():
                 out = []
                 for term, desc in self.fk_violations():
                     if E().decide(term):
-                        out.append(RowView(None, {"table": z3.StringVal(desc)},
-                                           {"table": z3.BoolVal(False)}))
+                        out.append(RowView(None, {"table": Z(desc)},
+                                           {"table": z3.BoolVal(False)}, kinds={"table": STR}))
                 return out
             return Cursor(self, None, lazy=lazy)
         # other pragmas are recorded (C09 compares the list) and have no modelled effect
@@ -844,7 +870,8 @@ class RelStore:
 
         if what[0] == "count":
             n = z3.Sum(*[z3.If(m, 1, 0) for m in ms]) if ms else z3.IntVal(0)
-            return Cursor(self, [RowView(tb, {what[1]: z3.simplify(n)}, {what[1]: z3.BoolVal(False)})])
+            return Cursor(self, [RowView(tb, {what[1]: z3.simplify(n)}, {what[1]: z3.BoolVal(False)},
+                                         kinds={what[1]: INT})])
 
         names = tb.colnames if what[0] == "star" else ([what[1]] if what[0] == "distinct" else what[1])
 
@@ -915,18 +942,21 @@ class RelStore:
             name, sort = c["name"], c["sort"]
             x = given.get(name)
             if x is None and c["auto"]:
-                x = tb.next_id
+                x = (tb.next_id, INT)
             if x is None and c["pk"] and sort == INT:
-                x = tb.next_id     # INTEGER PRIMARY KEY aliases rowid
+                x = (tb.next_id, INT)     # INTEGER PRIMARY KEY aliases rowid
             if x is None:
                 rn[name] = z3.BoolVal(True)
                 rv[name] = default_term(sort)
+            elif len(x) == 3:
+                rn[name] = x[2]
+                rv[name] = z3.simplify(coerce(x[:2], sort, "%s.%s" % (table, name)))
             else:
                 rn[name] = z3.BoolVal(False)
                 rv[name] = z3.simplify(coerce(x, sort, "%s.%s" % (table, name)))
         for c in tb.cols:
             if c["auto"] or (c["pk"] and c["sort"] == INT):
-                rid = W(rv[c["name"]])
+                rid = W(rv[c["name"]], INT)
                 tb.next_id = z3.simplify(z3.If(rv[c["name"]] >= tb.next_id, rv[c["name"]] + 1, tb.next_id))
         # PRIMARY KEY uniqueness
         if tb.pk:
@@ -966,6 +996,9 @@ class RelStore:
             for c, x in new:
                 if x is None:
                     r.n[c] = z3.simplify(z3.If(m, z3.BoolVal(True), r.n[c]))
+                elif len(x) == 3:
+                    r.n[c] = z3.simplify(z3.If(m, x[2], r.n[c]))
+                    r.v[c] = z3.simplify(z3.If(m, coerce(x[:2], tb.sort[c], "%s.%s" % (table, c)), r.v[c]))
                 else:
                     r.n[c] = z3.simplify(z3.If(m, z3.BoolVal(False), r.n[c]))
                     r.v[c] = z3.simplify(z3.If(m, coerce(x, tb.sort[c], "%s.%s" % (table, c)), r.v[c]))
@@ -1007,13 +1040,13 @@ class RelStore:
             if isinstance(x, tuple) and len(x) == 2 and x[0] == "nullable":
                 # ("nullable", (nullbit, value))
                 rn[name] = x[1][0]
-                rv[name] = coerce(Z(x[1][1]), sort, name)
+                rv[name] = coerce(zk(x[1][1]), sort, name)
             elif x is None:
                 rn[name] = z3.BoolVal(True)
                 rv[name] = default_term(sort)
             else:
                 rn[name] = z3.BoolVal(False)
-                rv[name] = z3.simplify(coerce(Z(x), sort, "%s.%s" % (table, name)))
+                rv[name] = z3.simplify(coerce(zk(x), sort, "%s.%s" % (table, name)))
         row = Row(present if not isinstance(present, bool) else z3.BoolVal(present), rv, rn)
         tb.rows.append(row)
         return row
@@ -1031,18 +1064,15 @@ class RelStore:
 
 
 def default_term(sort):
-    if sort == STR:
-        return z3.StringVal("")
     if sort == INT:
         return z3.IntVal(0)
     return z3.RealVal(0)
 
 
-def coerce_cmp(term, sort, what):
-    """bring a bound value to a column's sort for comparison; None = different storage class"""
-    if term.sort() == sort:
-        return term
-    if {term.sort(), sort} == {INT, REAL}:
+def coerce_cmp(val, sort):
+    """a bound (term, kind) compared with a column of kind `sort`; None = different storage class"""
+    term, kind = val
+    if kind == sort or {kind, sort} == {INT, REAL}:
         return term
     return None
 
